@@ -83,6 +83,9 @@ def run_history(pool, ops, coder_caches, table_limit):
     if table_limit is not None:
         T.MAXIMUM_NUMBER_OF_CACHED_TABLE_GROUPS = table_limit
     decs, encs = [], []
+    if len(ops) % 2 == 0:
+        # an encoder that was told to replace the table numbers it writes exists in the process (and is never used)
+        sut.Encoder(master_table_number=3, master_table_version=29)
     for c in coder_caches:
         decs.append(sut.Decoder() if c is None else sut.Decoder(compiled_template_cache_max=c))
         encs.append(sut.Encoder() if c is None else sut.Encoder(compiled_template_cache_max=c))
